@@ -396,6 +396,16 @@ static std::pair<uintptr_t, uintptr_t> equivalentVariablesCacheKey(uintptr_t v1,
     return (v2 < v1) ? std::make_pair(v2, v1) : std::make_pair(v1, v2);
 }
 
+#ifdef LIBCELLML_VERIF
+// Verification hook (guard LIBCELLML_VERIF): exports the cache-key computation used by
+// AnalyserModel::areEquivalentVariables() so that address pairs produced by the verifier can be
+// confirmed (or refuted) against the compiled code.
+LIBCELLML_EXPORT std::pair<uintptr_t, uintptr_t> verifEquivalentVariablesCacheKey(uintptr_t v1, uintptr_t v2)
+{
+    return equivalentVariablesCacheKey(v1, v2);
+}
+#endif
+
 bool AnalyserModel::areEquivalentVariables(const VariablePtr &variable1,
                                            const VariablePtr &variable2)
 {
